@@ -373,8 +373,6 @@ class ParseTreeBuilder:
                 wrapper = getattr(f, 'visit_wrapper', None)
                 if wrapper is not None:
                     f = apply_visit_wrapper(f, user_callback_name, wrapper)
-                elif isinstance(transformer, Transformer_InPlace):
-                    f = inplace_transformer(f)
             except AttributeError:
                 f = partial(default_callback, user_callback_name)
 
